@@ -15,6 +15,7 @@ from typing import Any
 import numpy as np
 
 from .. import sm, simpool
+from .. import prelude
 from ..core import Sim
 from ..simfs import SimFS
 
@@ -116,6 +117,7 @@ def run(sim: Sim) -> None:
     if fs.short_every:
         sim.probe("short_raw_writes")
     saved_savers = dict(save_mod.SAVERS)
+    prelude.warm_process(sim)
     try:
         fs.install()
         for k in list(save_mod.SAVERS):
